@@ -56,7 +56,8 @@ CLAIMS = {
              "expand_dims / drop_sel) over 3 coordinates x 1 variable with every cell pattern, the three overwrite "
              "policies, data names with and without extension, h5netcdf|joblib, new Harvester objects, sync off: "
              "memory = disk = policy(ghost); conflicts raise and change nothing; holes in the grid, aliasing of "
-             "the caller's Dataset and two live Harvester objects on one file.  Thorough: one-step induction "
+             "the caller's Dataset and two live Harvester objects on one file (adds, and a drop_sel through either "
+             "object); unsynced adds before the data file exists followed by a synced one.  Thorough: one-step induction "
              "from an arbitrary consistent state, split by policy and operation."),
     "C06": dict(
         engine="A", category="model_checking", design_ref="DESIGN.md 5/C06",
@@ -66,7 +67,8 @@ CLAIMS = {
              "resource, attr, all batchings, sow-time shuffle permutations, reload by name), Harvester crops (earlier "
              "equal/conflicting data x three policies) and Sampler crops (same drawn indices) deliver what the direct "
              "run delivers: same Dataset / table in memory, on disk and as last result; also after a re-sow of a grown "
-             "crop with other values, with a per-call combos override of the sampling space, and with another "
+             "crop with other values, with a constant given again (other value) at sow time, with a per-call combos "
+             "override of the sampling space, and with another "
              "process merging into the harvester's file between sow and reap."),
     "C10": dict(
         engine="A", category="fault_enumeration", design_ref="DESIGN.md 5/C10",
@@ -79,7 +81,8 @@ CLAIMS = {
              "exact, the documented recovery reaches the direct-run result, data already in a harvester file or "
              "sampler table survives; writes buffered until close, recovery under another pid, a harvester that "
              "sowed with data in memory while another process merged into its file, crops sown by batch count "
-             "(remainder).  One known finding (sampler duplicate-on-retry window) is listed and probed."),
+             "(remainder), an interrupted first sow followed by sowing other values under the same name.  One known "
+             "finding (sampler duplicate-on-retry window) is listed and probed."),
     "C11": dict(
         engine="A", category="model_checking", design_ref="DESIGN.md 5/C11",
         technique="CrossHair over StepFS timelines: each file's visible state is a solver-chosen monotone position "
@@ -168,7 +171,8 @@ CLAIMS = {
              "delete, two kinds of corruption + check_bad, reload, healthy check_bad) leaves num_results, "
              "num_sown_batches, missing_results, is_ready_to_reap, str(crop) and the result files equal to the ghost "
              "state (a grow of the empty subset / grow_missing with nothing missing evaluates nothing); plus all "
-             "histories of length 2 (3) from the empty state, and a grow that fails inside "
+             "histories of length 2 (3) from the empty state (not ready while nothing is on disk), batch-count crops "
+             "with a remainder sown again with the same shape, and a grow that fails inside "
              "pickle.dump on the real write_to_disk (step-level file system)."),
     "C09": dict(
         engine="A", category="model_checking", design_ref="DESIGN.md 5/C09",
@@ -184,9 +188,11 @@ CLAIMS = {
                   "wait and failure stage, followed by the corrected retry",
         text="All combinations of clean_up x allow_incomplete x wait x failure stage (result missing, cut short, "
              "zero bytes, over-long) on raw crops, and farmer kinds "
-             "(Runner/Harvester/Sampler) x failure stage (wrong var_names, merge conflict, failing save): the crop "
+             "(Runner/Harvester/Sampler) x failure stage (too many / too few var_names, merge conflict, failing save), "
+             "with a grown, un-reaped sibling crop whose name starts with the reaped crop's name: the crop "
              "directory survives every reap that raises and every reap whose effective clean_up "
-             "is false; the corrected retry returns exactly the direct-run result."),
+             "is false; the corrected retry returns exactly the direct-run result; the sibling crop is untouched and "
+             "still reaps exactly."),
     "C19": dict(
         engine="A", engine_override="AB", category="other", design_ref="DESIGN.md 5/C19",
         technique="source-to-SMT (pyz3) of the Welford updates over z3 Reals: closed-form identities unsat-checked "
